@@ -4,11 +4,18 @@
   Model and tie as for C03 (`Nq.Daemon`, `harness/qsend.c`, `drv_c03`).  The slot table of the
   monitor is the set of delivery commands handed to a spawner and not yet answered.
 
-  The last section is about the layer `Nq.DaemonOwed` (`accept2`, the monitor the driver actually
-  runs): the list of records whose final report (`K`, or `D` with its bounce paragraph) was handled
-  and whose mark has not been seen.  A delivery command for such a record is refused — in the same
-  run and after a clean stop and restart; only a crash, a failing system call of `markdone`, or the
-  removal of the file take a record off the list without its mark.
+  The last sections are about the layer `Nq.DaemonOwed` (`accept2`, the monitor the driver actually
+  runs): the list of records whose final report (`K`, `D`, or `Z` of an expired message with its bounce
+  paragraph) was handled and whose mark has not been seen.  A delivery command for such a record is
+  refused — in the same run and after a clean stop and restart; only a crash, a failing system call of
+  `markdone` for that very record, or the removal of the file take a record off the list without its
+  mark.  `C04_never_again` puts the pieces together over whole traces.
+
+  Which theorems are what: `C04_bound`, `C04_single` are inductive invariants of the slot table;
+  `C04_mark_stays`, `C04_fin_step`, `C04_never_again*` are proved over all accepted events /
+  traces (frame lemma over the 27 event kinds); `C04_no_retry`, `C04_marked_refused`, `C04_mark_sets`,
+  `C04_restart_keeps`, `C04_reported_refused`, `C04_cleanRestart_keeps`, `C04_layer_refines` read back guards
+  / definitions of the monitor (they are the building blocks and are tied to the code by trace replay).
 -/
 import Nq.Lemmas.DaemonSlots
 import Nq.Lemmas.DaemonInv
@@ -206,7 +213,7 @@ theorem C04_K_owed (cfg : Cfg) (s s' : St2) (c : Ch) (bs : Bytes) (h : accept2 c
         intro m c' i hd
         rcases (feedReports_delivered cfg c bs { s.base with mayMark := [], notes := [] }).2 m c' i hd with h1 | h1
         · exact Or.inl h1
-        · exact Or.inr (List.mem_append_left _ h1)
+        · exact Or.inr (List.mem_append_left _ (List.mem_append_left _ h1))
     · cases h
 
 /-- the record of a `D` report (or of a `Z` past the queue lifetime) is put on the list when its bounce
@@ -239,16 +246,40 @@ theorem C04_D_owed (cfg : Cfg) (s s' : St2) (m : Nat) (bs : Bytes) (h : accept2 
           · cases hb
     · cases h
 
+/-- the record of a `D` report is put on the list when the report is read (before its bounce paragraph is written) -/
+theorem C04_D_owed_report (cfg : Cfg) (s s' : St2) (c : Ch) (bs : Bytes) (h : accept2 cfg s (.ev (.rbytes c bs)) = some s') :
+    ∀ n ∈ s'.base.notes, n.final = true → (n.m, n.c, n.idx) ∈ s'.owed := by
+  simp only [accept2] at h
+  split at h
+  · cases h
+  · split at h
+    · rename_i b hb
+      cases h
+      intro n hn hf
+      simp only [owedStep]
+      refine List.mem_append_left _ (List.mem_append_right _ ?_)
+      exact List.mem_map.2 ⟨n, List.mem_filter.2 ⟨hn, hf⟩, rfl⟩
+    · cases h
+
+/-- a `D` report for an outstanding delivery leaves such a note (`final`) — see also `C03_note_origin` -/
+theorem C04_D_noted (cfg : Cfg) (s : St) (c : Ch) (rep : Bytes) (sl : Slot)
+    (hs : s.slots.find? (fun x => x.c == c && x.delnum == (rep.headD 0).toNat) = some sl)
+    (hl : (rep.headD 0).toNat < cfg.conc c) (hD : rep.getD 1 0 = 68) :
+    (⟨sl.m, c, sl.idx, sl.recip, true⟩ : Note) ∈ (handleReport cfg s c rep).notes := by
+  simp only [handleReport, hs]
+  rw [if_neg (by omega), if_neg (by rw [hD]; decide), if_pos hD]
+  simp
+
 /-- **A record leaves the list only with its mark, or for one of the documented reasons**: the mark
 was written (`markD` at its position — from then on `C04_marked_refused` applies), a system call of
-`markdone` failed (`markFail`: "message will be delivered twice"), a crash (`restart`), or its file
+`markdone` *for this record* failed (`markFail`: "message will be delivered twice"), a crash (`restart`), or its file
 is gone (`unlinkChan`; `cUnlinkTodo`/`newmsg`: the message number starts a new life).  In
-particular a clean restart keeps it. -/
+particular a clean restart keeps it, and a failing `markdone` for another record of the same file keeps it. -/
 theorem C04_owed_persists (cfg : Cfg) (s s' : St2) (e : Ev2) (h : accept2 cfg s e = some s')
     (x : Nat × Ch × Nat) (hx : x ∈ s.owed) :
     x ∈ s'.owed ∨
     (∃ pos, e = .ev (.markD x.1 x.2.1 pos) ∧ recAt s.base x.1 x.2.1 pos = some x.2.2) ∨
-    e = .markFail x.1 x.2.1 ∨
+    (∃ pos, e = .markFail x.1 x.2.1 pos ∧ recAt s.base x.1 x.2.1 pos = some x.2.2) ∨
     e = .ev .restart ∨
     e = .ev (.unlinkChan x.1 x.2.1) ∨
     e = .ev (.cUnlinkTodo x.1) ∨
@@ -259,12 +290,18 @@ theorem C04_owed_persists (cfg : Cfg) (s s' : St2) (e : Ev2) (h : accept2 cfg s 
     split at h
     · cases h; exact Or.inl hx
     · cases h
-  | markFail m c =>
+  | markFail m c pos =>
     simp only [accept2] at h
-    cases h
-    by_cases hm : x.1 = m ∧ x.2.1 = c
-    · right; right; left; rw [hm.1, hm.2]
-    · left; exact mem_dropChan hx hm
+    split at h
+    · rename_i idx hidx
+      cases h
+      by_cases hxe : x = (m, c, idx)
+      · right; right; left
+        refine ⟨pos, ?_, ?_⟩
+        · rw [hxe]
+        · rw [hxe]; exact hidx
+      · left; exact mem_dropRec hx hxe
+    · cases h; exact Or.inl hx
   | ev e0 =>
     simp only [accept2] at h
     split at h
@@ -324,6 +361,145 @@ theorem C04_layer_refines (cfg : Cfg) (s s' : St2) (e : Ev) (h : accept2 cfg s (
     · rename_i b hb; cases h; exact hb
     · cases h
 
+/-! ### Never again: whole traces -/
+
+/-- **A completion mark on disk stays `D`** under every event the monitor accepts except a machine crash that reverts
+un-fsynced marks of that file (`crashMarks`), the removal of the file (`unlinkChan`) and a machine crash during
+preprocessing (`crashTodoFiles`): in particular across restarts, clean or not.  (Frame lemma over all event kinds.) -/
+theorem C04_mark_stays (cfg : Cfg) (s s' : St) (e : Ev) (h : accept cfg s e = some s') (x : Nat × Ch × Nat)
+    (hm : markedDone s x = true) :
+    markedDone s' x = true ∨ (∃ marks, e = .crashMarks x.1 x.2.1 marks) ∨ e = .unlinkChan x.1 x.2.1 ∨ e = .crashTodoFiles x.1 :=
+  markedDone_step cfg s s' e h x hm
+
+theorem getD_default_irrel {α : Type} (l : List α) (i : Nat) (a b : α) (h : i < l.length) : l.getD i a = l.getD i b := by
+  simp [List.getD, List.getElem?_eq_getElem h]
+
+/-- writing the mark makes the record finished -/
+theorem C04_markD_fin (cfg : Cfg) (s s' : St) (c : Ch) (m pos : Nat) (h : accept cfg s (.markD m c pos) = some s') :
+    ∃ idx, recAt s m c pos = some idx ∧ markedDone s' (m, c, idx) = true := by
+  obtain ⟨rs, idx, hc, hi, hc'⟩ := C04_mark_sets cfg s s' c m pos h
+  refine ⟨idx, by simp [recAt, hc, hi], ?_⟩
+  have hlt := recIndex_lt rs pos idx hi
+  simp only [markedDone, hc', Bool.and_eq_true, decide_eq_true_eq, Nq.Lemmas.DI.length_setDone]
+  exact ⟨hlt, getD_setDone_self rs idx hlt⟩
+
+/-- **One step**: a finished record (mark on disk, or final report handled and mark due) stays finished under every event
+`accept2` accepts, unless the event is one of the excuses (`excuse`: crash / failing `markdone` of this record while the mark
+is not on disk; `crashMarks`, `unlinkChan` of its file; `crashTodoFiles`, `cUnlinkTodo`, `newmsg` of its message). -/
+theorem C04_fin_step (cfg : Cfg) (s s' : St2) (e : Ev2) (h : accept2 cfg s e = some s') (x : Nat × Ch × Nat) (hf : Fin2 s x) :
+    Fin2 s' x ∨ excuse s x e = true := by
+  by_cases hmk : markedDone s.base x = true
+  · -- the mark is on disk
+    cases e with
+    | ev e0 =>
+      have hb := C04_layer_refines cfg s s' e0 h
+      rcases markedDone_step cfg s.base s'.base e0 hb x hmk with h1 | ⟨marks, rfl⟩ | rfl | rfl
+      · exact Or.inl (Or.inr h1)
+      · right; simp [excuse]
+      · right; simp [excuse]
+      · right; simp [excuse]
+    | markFail m c pos =>
+      simp only [accept2] at h
+      split at h <;> (cases h; exact Or.inl (Or.inr hmk))
+    | cleanRestart =>
+      simp only [accept2, accept] at h
+      cases h; exact Or.inl (Or.inr hmk)
+  · -- the mark is due
+    have hx : x ∈ s.owed := hf.resolve_right hmk
+    have hmk' : markedDone s.base x = false := by simpa using hmk
+    rcases C04_owed_persists cfg s s' e h x hx with h1 | ⟨pos, rfl, hr⟩ | ⟨pos, rfl, hr⟩ | rfl | rfl | rfl | ⟨sd, rc, rfl⟩
+    · exact Or.inl (Or.inl h1)
+    · left; right
+      have hb := C04_layer_refines cfg s s' _ h
+      obtain ⟨idx, hi, hd⟩ := C04_markD_fin cfg s.base s'.base x.2.1 x.1 pos hb
+      rw [hr] at hi; cases hi; exact hd
+    · right; simp [excuse, hr, hmk']
+    · right; simp [excuse, hmk']
+    · right; simp [excuse]
+    · right; simp [excuse]
+    · right; simp [excuse]
+
+/-- **No delivery command for a finished record**: refused by the layer (mark due) or by the base monitor (mark on disk) -/
+theorem C04_fin_refuses (cfg : Cfg) (s : St2) (x : Nat × Ch × Nat) (hf : Fin2 s x) (e : Ev2) (hc : cmdFor s x e = true) :
+    accept2 cfg s e = none := by
+  cases e with
+  | ev e0 =>
+    cases e0 with
+    | cmd c d m pos r =>
+      simp only [cmdFor, Bool.and_eq_true, beq_iff_eq] at hc
+      obtain ⟨⟨hm, hcc⟩, hr⟩ := hc
+      subst hm; subst hcc
+      rcases hf with ho | hmk
+      · exact C04_reported_refused cfg s _ d _ pos x.2.2 r hr ho
+      · simp only [accept2]
+        split
+        · rfl
+        · simp only [recAt] at hr
+          simp only [markedDone] at hmk
+          cases hch : (s.base.msg x.1).chan x.2.1 with
+          | none => simp [hch] at hmk
+          | some rs =>
+            simp only [hch] at hr hmk
+            simp only [Bool.and_eq_true, decide_eq_true_eq] at hmk
+            have := C04_marked_refused cfg s.base x.2.1 d x.1 pos r rs x.2.2 hch hr
+              (by rw [getD_default_irrel rs x.2.2 _ ⟨false, []⟩ hmk.1]; exact hmk.2)
+            rw [this]
+    | _ => simp [cmdFor] at hc
+  | _ => simp [cmdFor] at hc
+
+/-- **Never attempted again** — the temporal clause of C04 over whole traces: from a state in which record `x` is finished
+(its `D` byte is on disk, or its `K`/`D` report was handled and the mark is due), along *any* event sequence that `accept2`
+accepts — arbitrarily many reports, arrivals, clean stops and restarts, crashes that kept the byte, failing calls that
+concern other records — in which no excusing event for `x` occurs (`excuse`, judged in the state where it happens), no
+delivery command for `x` is ever issued, and `x` is still finished at the end. -/
+theorem C04_never_again (cfg : Cfg) (x : Nat × Ch × Nat) : ∀ (evs : List Ev2) (s s' : St2), Fin2 s x →
+    acceptAll2 cfg s evs = some s' → anyAlong cfg (fun t e => excuse t x e) s evs = false →
+    anyAlong cfg (fun t e => cmdFor t x e) s evs = false ∧ Fin2 s' x
+  | [], s, s', hf, ha, _ => by
+    simp only [acceptAll2] at ha; cases ha
+    exact ⟨rfl, hf⟩
+  | e :: es, s, s', hf, ha, hne => by
+    simp only [acceptAll2] at ha
+    cases h1 : accept2 cfg s e with
+    | none => simp [h1] at ha
+    | some s1 =>
+      simp only [h1] at ha
+      simp only [anyAlong, h1, Bool.or_eq_false_iff] at hne ⊢
+      have hnc : cmdFor s x e = false := by
+        cases hcf : cmdFor s x e with
+        | false => rfl
+        | true => rw [C04_fin_refuses cfg s x hf e hcf] at h1; cases h1
+      rcases C04_fin_step cfg s s1 e h1 x hf with hf1 | hex
+      · have ih := C04_never_again cfg x es s1 s' hf1 ha hne.2
+        exact ⟨⟨hnc, ih.1⟩, ih.2⟩
+      · rw [hne.1] at hex; cases hex
+
+/-- … after a `K` report: every record a read from a spawner adds to `delivered` is never commanded again in any accepted
+continuation without an excusing event -/
+theorem C04_never_again_after_K (cfg : Cfg) (s s1 s2 : St2) (c : Ch) (bs : Bytes) (m : Nat) (c' : Ch) (i : Nat) (evs : List Ev2)
+    (h : accept2 cfg s (.ev (.rbytes c bs)) = some s1)
+    (hd : (c', i) ∈ (s1.base.msg m).delivered) (hnd : (c', i) ∉ (s.base.msg m).delivered)
+    (ha : acceptAll2 cfg s1 evs = some s2) (hne : anyAlong cfg (fun t e => excuse t (m, c', i) e) s1 evs = false) :
+    anyAlong cfg (fun t e => cmdFor t (m, c', i) e) s1 evs = false :=
+  (C04_never_again cfg (m, c', i) evs s1 s2
+    (Or.inl ((C04_K_owed cfg s s1 c bs h m c' i hd).resolve_left hnd)) ha hne).1
+
+/-- … after a `D` report (before and after its bounce paragraph is written) -/
+theorem C04_never_again_after_D (cfg : Cfg) (s s1 s2 : St2) (c : Ch) (bs : Bytes) (n : Note) (evs : List Ev2)
+    (h : accept2 cfg s (.ev (.rbytes c bs)) = some s1) (hn : n ∈ s1.base.notes) (hf : n.final = true)
+    (ha : acceptAll2 cfg s1 evs = some s2) (hne : anyAlong cfg (fun t e => excuse t (n.m, n.c, n.idx) e) s1 evs = false) :
+    anyAlong cfg (fun t e => cmdFor t (n.m, n.c, n.idx) e) s1 evs = false :=
+  (C04_never_again cfg (n.m, n.c, n.idx) evs s1 s2 (Or.inl (C04_D_owed_report cfg s s1 c bs h n hn hf)) ha hne).1
+
+/-- … after the mark was written -/
+theorem C04_never_again_after_mark (cfg : Cfg) (s s1 s2 : St2) (m : Nat) (c : Ch) (pos idx : Nat) (evs : List Ev2)
+    (h : accept2 cfg s (.ev (.markD m c pos)) = some s1) (hi : recAt s.base m c pos = some idx)
+    (ha : acceptAll2 cfg s1 evs = some s2) (hne : anyAlong cfg (fun t e => excuse t (m, c, idx) e) s1 evs = false) :
+    anyAlong cfg (fun t e => cmdFor t (m, c, idx) e) s1 evs = false := by
+  obtain ⟨idx', hi', hd⟩ := C04_markD_fin cfg s.base s1.base c m pos (C04_layer_refines cfg s s1 _ h)
+  rw [hi] at hi'; cases hi'
+  exact (C04_never_again cfg (m, c, idx) evs s1 s2 (Or.inr hd) ha hne).1
+
 /-! ### Non-vacuity -/
 
 def cfg0 : Cfg := { conc := fun _ => 1, lifetime := 1000, route := fun a => (.loc, a), doublebounceto := [112] }
@@ -359,7 +535,24 @@ example :
     acceptAll2 cfg0 {} (pre ++ [.cleanRestart, .ev (.cmd .loc 0 7 0 [97])]) = none ∧
     (acceptAll2 cfg0 {} (pre ++ [.cleanRestart, .ev (.cmd .loc 0 7 3 [98])])).isSome = true ∧
     (acceptAll2 cfg0 {} (pre ++ [.ev .restart, .ev (.cmd .loc 0 7 0 [97])])).isSome = true ∧
-    (acceptAll2 cfg0 {} (pre ++ [.markFail 7 .loc, .cleanRestart, .ev (.cmd .loc 0 7 0 [97])])).isSome = true := by
+    (acceptAll2 cfg0 {} (pre ++ [.markFail 7 .loc 0, .cleanRestart, .ev (.cmd .loc 0 7 0 [97])])).isSome = true := by
+  decide
+
+/-- the audit's probes, now refused: (P1) a `D` report was read, its paragraph not yet written — a second command for the same
+record is refused in the same run and after a clean restart; (P2) two `K` reports, `markdone` fails for record 0 only: record 0
+may be attempted again, record 1 may not -/
+example :
+    let pre : List Ev2 :=
+      [.ev (.newmsg 7 [115] [[97], [98]]), .ev (.creatInfo 7), .ev (.writeInfo 7 [70, 115, 0]), .ev (.creatChan 7 .loc),
+       .ev (.writeChan 7 .loc [84, 97, 0, 84, 98, 0]), .ev (.fsyncInfo 7), .ev (.fsyncChan 7 .loc),
+       .ev (.cleanReq [116, 111, 100, 111, 47, 55, 0]), .ev (.cUnlinkIntd 7), .ev (.cUnlinkTodo 7), .ev (.cleanResp 43)]
+    let cfg2 : Cfg := { conc := fun _ => 2, lifetime := 1000, route := fun a => (.loc, a), doublebounceto := [112] }
+    acceptAll2 cfg2 {} (pre ++ [.ev (.cmd .loc 0 7 0 [97]), .ev (.rbytes .loc [0, 68, 120, 10, 0]), .ev (.cmd .loc 0 7 0 [97])]) = none ∧
+    acceptAll2 cfg2 {} (pre ++ [.ev (.cmd .loc 0 7 0 [97]), .ev (.rbytes .loc [0, 68, 120, 10, 0]), .cleanRestart, .ev (.cmd .loc 0 7 0 [97])]) = none ∧
+    (acceptAll2 cfg2 {} (pre ++ [.ev (.cmd .loc 0 7 0 [97]), .ev (.cmd .loc 1 7 3 [98]), .ev (.rbytes .loc [0, 75, 0, 1, 75, 0]),
+       .markFail 7 .loc 0, .ev (.cmd .loc 0 7 0 [97])])).isSome = true ∧
+    acceptAll2 cfg2 {} (pre ++ [.ev (.cmd .loc 0 7 0 [97]), .ev (.cmd .loc 1 7 3 [98]), .ev (.rbytes .loc [0, 75, 0, 1, 75, 0]),
+       .markFail 7 .loc 0, .ev (.cmd .loc 1 7 3 [98])]) = none := by
   decide
 
 end Nq.Props.C04
